@@ -183,9 +183,10 @@ def run_explore(unit, body, reg, default_props, timeout_ms, setup=None, max_path
         res["queries"] += ex.nqueries
         res["native_calls"] += ex.native_calls
 
+    seen_names = set()
     try:
         def setup2(ex):
-            ex.dump_smt2 = recheck
+            ex.dump_smt2 = seen_names if recheck == "once" else recheck
             if setup:
                 setup(ex)
         interp.explore(w, body, unit, reg, max_paths=max_paths, timeout_ms=timeout_ms, setup=setup2, on_path=digest,
@@ -235,7 +236,8 @@ def unit_script(module, func, name, props, tier, kwargs=None):
     f = getattr(mod, func)
     timeout = 60000 if tier == "quick" else 600000
     kwargs = kwargs or {}
-    return run_explore(name, lambda ex: f(ex, **kwargs), contracts.REGISTRY, props, timeout)
+    return run_explore(name, lambda ex: f(ex, **kwargs), contracts.REGISTRY, props, timeout,
+                       recheck=("once" if tier == "thorough" else False))
 
 
 # ---- differential run: executor semantics vs CPython on concrete inputs -------------------------------------------------------
